@@ -77,7 +77,8 @@ class Scenario:
         if kind == "Runner":
             self.farmer = self.runner
         elif kind == "Harvester":
-            self.farmer = xyzpy.Harvester(self.runner, data_name=os.path.join(self.dir, "data", "h.h5"))
+            # the data name with or without its extension (the file is data/h.h5 either way)
+            self.farmer = xyzpy.Harvester(self.runner, data_name=os.path.join(self.dir, "data", rng.choice(["h.h5", "h"])))
         elif kind == "Sampler":
             self.farmer = xyzpy.Sampler(self.runner, data_name=os.path.join(self.dir, "data", "s.pkl"),
                                         default_combos=self.combos)
